@@ -62,13 +62,22 @@ def plan_st(draw, tier):
     metric = draw(st.sampled_from(gen.EXACT_METRICS))
     which = draw(st.sampled_from(["Radius", "Radius", "KNearest"]))
     d = draw(st.integers(1, 3))
+    # one case in twelve: a Radius history of more than a thousand rows (the first fit, repeated), queried at integer
+    # multiples of stored rows with the radius exactly on their distance - rows on the boundary that lie on one ray with
+    # the query, where any pruning by norms or bounding boxes is tight
+    long_history = draw(st.integers(0, 11)) == 0
+    if long_history:
+        which = "Radius"
+        metric = draw(st.sampled_from(["euclidean", "euclidean", "sqeuclidean", "cityblock", "chebyshev"]))
+        d = draw(st.integers(2, 3))
     cfg = {"arms": arms, "lp": lp, "np": [which, {"metric": metric}], "seed": draw(st.integers(0, 2 ** 20)),
            "n_jobs": 1, "backend": None, "arm_kind": kind}
     # (one case in five on integers just above 2**24 - amounts in cents, identifiers: exact in double precision, not all
     # representable in single precision)
     # (context-free learning policies only: a regression on features of size 1e7 is ill-conditioned, LinTS then fails in
     # its Cholesky factorisation - a numerical limit of the policy, not a neighbourhood question)
-    grid = draw(st.sampled_from(["int", "int", "int", "int", "f32edge"])) if lp[0] not in ops.LINEAR else "int"
+    grid = draw(st.sampled_from(["int", "int", "int", "int", "f32edge"])) if lp[0] not in ops.LINEAR and \
+        not long_history else "int"
     h = gen.History(draw, cfg, grid=grid, d=d, max_rows=8, exact_only=True)
     h.fit()
     for _ in range(draw(st.integers(0, 3))):
@@ -83,10 +92,22 @@ def plan_st(draw, tier):
             queries.append(draw(st.lists(st.integers(-4, 4) if grid == "int" else
                                          st.integers(-8, 8).map(lambda k: 16777216 + 3 * k + 1),
                                          min_size=d, max_size=d)))
+    ray = []
+    if long_history:
+        nz = [x for x in stored if any(x)] or [[1] * d]
+        queries = []
+        for _ in range(m):
+            x = draw(st.sampled_from(nz))
+            k = draw(st.sampled_from([2, 3, -1, 4]))
+            queries.append([k * v for v in x])
+            ray.append(exact_dist(metric, queries[-1], x))
     dists = sorted({exact_dist(metric, q, x) for q in queries for x in stored})
     if which == "Radius":
         mode = draw(st.sampled_from(["on", "on", "between", "below"]))
-        if mode == "on":
+        if ray and draw(st.integers(0, 3)):
+            mode = "ray"
+            r = draw(st.sampled_from(ray))
+        elif mode == "on":
             r = draw(st.sampled_from(dists))
             if r == 0:
                 r = 0.5
@@ -113,10 +134,16 @@ def plan_st(draw, tier):
         cdt = draw(st.sampled_from(["uint8", "int8", "uint16", "float32", "int32", "uint32"] if grid == "int" else
                                    ["int32", "uint32", "int64", "float64"]))
         if cdt.startswith("u"):
+            if long_history:
+                cdt = "uint16"      # (multiples of stored rows reach +-12: distances are invariant under the shift)
+            sh = 12 if long_history else 4
             for op in h.ops:
-                op[3] = [[v + 4 for v in row] for row in op[3]]
-            queries = [[v + 4 for v in q] for q in queries]
-    return {"config": cfg, "ops": h.ops, "queries": queries, "check_after": early, "ctx_dtype": cdt}
+                op[3] = [[v + sh for v in row] for row in op[3]]
+            queries = [[v + sh for v in q] for q in queries]
+    tile = None
+    if long_history:
+        tile = -(-1040 // len(h.ops[0][1]))
+    return {"config": cfg, "ops": h.ops, "queries": queries, "check_after": early, "ctx_dtype": cdt, "tile": tile}
 
 
 def rendered(plan, rows):
@@ -153,7 +180,11 @@ def evaluate(plan, ctx):
     state = {"nt": False, "skipped": False}
     if plan.get("ctx_dtype"):
         ev.append("contexts_as_" + plan["ctx_dtype"])
+    if plan.get("tile"):
+        ev.append("history_of_more_than_1000_rows")
     for i, op in enumerate(plan["ops"]):
+        if i == 0 and plan.get("tile"):
+            op = [op[0], op[1] * plan["tile"], op[2] * plan["tile"], [list(r) for r in op[3]] * plan["tile"]]
         o = ops.apply_op(mab, [op[0], op[1], op[2], rendered(plan, op[3])])
         if ops.is_exc(o):
             raise Violation("unexpected_exception", "op %d %s raised %s" % (i, op[0], ops.short(o)))
